@@ -21,6 +21,7 @@ use tokio::sync::{mpsc, watch};
 pub struct Ep {
     rtp: Arc<RtpTransport>,
     srtp: bool,
+    gcm: bool,
     sender: Option<SrtpSession>,
     rx_rtp: Option<mpsc::Receiver<(RtpPacket, SocketAddr)>>,
     rx_rtcp: Option<mpsc::Receiver<Vec<RtcpPacket>>>,
@@ -38,11 +39,12 @@ fn keys() -> (SrtpKeyingMaterial, SrtpKeyingMaterial) {
 }
 
 impl Ep {
-    pub async fn build(srtp: bool) -> Result<Ep, String> {
+    /// `gcm`: AEAD_AES_128_GCM instead of AES_CM_128_HMAC_SHA1_80 (different tag / index arithmetic).
+    pub async fn build(srtp: bool, gcm: bool) -> Result<Ep, String> {
         let (tx, rx) = watch::channel(None);
         let conn = IceConn::new(rx, peer(), None);
         let rtp = Arc::new(RtpTransport::new(conn, true));
-        Ok(Ep { rtp, srtp, sender: None, rx_rtp: None, rx_rtcp: None, phase: "pre", panicked: None, _keep: tx })
+        Ok(Ep { rtp, srtp, gcm, sender: None, rx_rtp: None, rx_rtcp: None, phase: "pre", panicked: None, _keep: tx })
     }
 
     pub async fn progress(&mut self, to: &str) -> Result<(), String> {
@@ -54,9 +56,14 @@ impl Ep {
                     self._keep = tx;
                     self.rtp = Arc::new(RtpTransport::new(IceConn::new(rx, peer(), None), false));
                 } else {
-                    let (a, b) = keys();
-                    let local = SrtpSession::new(SrtpProfile::Aes128Sha1_80, a.clone(), b.clone()).map_err(|e| e.to_string())?;
-                    self.sender = Some(SrtpSession::new(SrtpProfile::Aes128Sha1_80, b, a).map_err(|e| e.to_string())?);
+                    let (mut a, mut b) = keys();
+                    let profile = if self.gcm { SrtpProfile::AeadAes128Gcm } else { SrtpProfile::Aes128Sha1_80 };
+                    if self.gcm {
+                        a.master_salt.truncate(12);
+                        b.master_salt.truncate(12);
+                    }
+                    let local = SrtpSession::new(profile, a.clone(), b.clone()).map_err(|e| e.to_string())?;
+                    self.sender = Some(SrtpSession::new(profile, b, a).map_err(|e| e.to_string())?);
                     self.rtp.start_srtp(local);
                 }
                 let (tx, rx) = mpsc::channel(4096);
